@@ -556,4 +556,17 @@ theorem spansOkFrom_sound (n : Nat) (toks : List Tok) : ∀ lo : Int, spansOkFro
       have := hall u hu; omega
 
 
+/-- accepted spans are non-empty and disjoint inside `[lo, n)`: there are at most `n - lo` of them -/
+theorem spansOkFrom_count (n : Nat) (toks : List Tok) : ∀ lo : Int, spansOkFrom n lo toks = true →
+    toks.length ≤ ((n : Int) - lo).toNat := by
+  induction toks with
+  | nil => intro lo _; simp
+  | cons t ts ih =>
+    intro lo h
+    simp only [spansOkFrom, Bool.and_eq_true, decide_eq_true_eq] at h
+    have := ih (t.e + 1) h.2
+    simp only [List.length_cons]
+    omega
+
+
 end Elk.Lex
